@@ -13,13 +13,16 @@ RULE = ("MC: exhaustive TLC runs of the Adnl byte-level state machine (real SHA-
         "adnl.message.query / adnl.message.answer ids at lengths 4, 11, 12, 13, 16, 20, 64, 1000, each followed by a marker packet; Adnl.Absorbs says which "
         "valid packets the connection keeps (a 12-byte pong; free for the authentication nonce), every other one must reach Responses() once, in order "
         "(C11:packet-swallowed:<content class>; Absorb events judged by Adnl_Trace). "
+        "Dial deadline: a script dialled under context.WithTimeout(300 ms) whose whole data traffic happens after the deadline (Adnl.TimePasses: "
+        "not a fault, everything must still be delivered). Resend: the same liteclient.Packet value handed to Send again on the same connection and "
+        "after a first send on another connection (Adnl.Resend), the server must decode exactly the payload and the value must be unchanged after Send. "
         "Every packet object handed out by Responses()/ParsePacket is kept (not copied) and re-read after each later packet and at the end; "
         "a held payload that no longer equals the sent one is C11:payload-changed-after-delivery (Recheck events, judged by Adnl_Trace). "
         "C->S: every executed connection plus free-running echo sessions (random sizes 0..65536) is recorded (server seed, raw "
         "bytes as they arrived, API-level sends/deliveries) and Adnl_Trace decrypts and verifies it with Prim. "
         "distinct = scripts replayed (two modes each) + recorded connections accepted.")
 
-NCLS = 48
+NCLS = 50
 # divergences that are hard evidence by themselves: an object handed out by the API holds bytes other than the sent
 # payload while TLC verifies on the recorded stream that the server sent the right ones; no socket or timer is involved
 # in what was observed, and whether the recycled buffer is hit again depends on the Go scheduler - so no re-run is demanded
@@ -102,6 +105,15 @@ def check_generated(ck, vecs):
         if not vs or lens != {4, 11, 12, 13, 16, 20, 64, 1000} or want not in users or (want == "yes" and users.count("yes") != len(vs)) \
                 or (want == "no" and set(users) != {"no"}):
             raise Infra("generator: content class %s is not exercised as intended (%s, %s)" % (nm, sorted(lens), sorted(set(users))))
+    for v in classes.get("none-s2c-deadline-none", []) or [None]:
+        ks = [s["k"] for s in v["steps"]] if v else []
+        if not v or v["steps"][0].get("dial", 0) <= 0 or "Wait" not in ks or any(k == "Send" for k in ks[:ks.index("Wait")]) \
+                or v["steps"][-1]["nd"][0] < 1 or v["steps"][-1]["nd"][1] < 2:
+            raise Infra("generator: no script with a dial deadline followed by traffic in both directions")
+    for v in classes.get("none-c2s-resend-none", []) or [None]:
+        snd = [s for s in v["steps"] if s["k"] == "Send" and s["d"] == "c2s"] if v else []
+        if [s["again"] for s in snd] != [0, 1, 0, 1, 0, 5] or not snd[2]["elsewhere"] or v["steps"][-1]["nd"][0] != 6:
+            raise Infra("generator: the resend script is not as intended")
     shrink = [v for v in classes.get("none-s2c-shrink-none", []) if v["steps"][-1]["nd"][1] == 5]
     if not shrink:
         raise Infra("generator: no fault-free script with non-growing server->client payloads was delivered completely")
@@ -154,9 +166,11 @@ def guarded(ck, f):
     (e.g. no healthy recording to corrupt) must not turn the verdict into an infrastructure failure"""
     try:
         f()
-    except Infra as e:
+    except (Infra, IndexError, KeyError, StopIteration) as e:
         if not ck.violations:
-            raise
+            if isinstance(e, Infra):
+                raise
+            raise Infra("canary could not be built: %r" % e)
         ck.notes.append("canary skipped after violations were found: %s" % str(e)[:200])
 
 
@@ -322,6 +336,42 @@ def run(ck):
             ck.canary("C->S: " + nm, len(mine) == 1 and mine[0]["accepted"] >= first_possible - 1 and mine[0]["accepted"] < len(s))
             base += len(s)
     guarded(ck, cs_canaries)
+
+    # ---- C->S canaries for the deadline and resend clauses, on the recorded scripted connections
+    def cs_canaries2():
+        evs = [e for tp, _ in [(t, 0) for _, t in rep if os.path.getsize(t) > 100] for e in vlib.read_ndjson(tp) if e.get("k") != "End"]
+        starts = [i for i, e in enumerate(evs) if e["k"] == "Reset"] + [len(evs)]
+        segs = {}
+        for a, b in zip(starts, starts[1:]):
+            segs.setdefault(evs[a].get("cls"), evs[a:b])
+        dl, rs = segs.get("none-s2c-deadline-none"), segs.get("none-c2s-resend-none")
+        if not dl or not rs or dl[-1]["k"] != "Quiesce" or rs[-1]["k"] != "Quiesce" or "gave_up" in dl[-1] or "gave_up" in rs[-1]:
+            raise Infra("no complete deadline / resend recording to build canaries from")
+        cans = []
+        iw = [i for i, e in enumerate(dl) if e["k"] == "Wait"][0]
+        after = [i for i, e in enumerate(dl) if i > iw and e["k"] == "Dlv"]
+        s = copy.deepcopy(dl); del s[after[0]]
+        cans.append(("a delivery after the dial deadline dropped (as if the connection had died with it)", s, after[0] + 1))
+        ia = [i for i, e in enumerate(rs) if e["k"] == "Send" and e.get("again", 0) > 0]
+        s = copy.deepcopy(rs); s[ia[0]]["hex"] = s[ia[0]]["hex"][:-2] + ("00" if s[ia[0]]["hex"][-2:] != "00" else "01")
+        cans.append(("a re-sent packet claims another payload than the one sent before", s, ia[0] + 1))
+        idl = [i for i, e in enumerate(rs) if i > ia[0] and e["k"] == "Dlv" and e["d"] == "c2s"]
+        s = copy.deepcopy(rs); s[idl[0]] = {"k": "Dead", "d": "c2s", "why": "bad"}
+        cans.append(("the server cannot decode the re-sent packet", s, idl[0] + 1))
+        it = [i for i, e in enumerate(rs) if e["k"] == "Recheck" and e.get("side") == "tx"]
+        s = copy.deepcopy(rs); s[it[-1]]["sha"] = ("0" if s[it[-1]]["sha"][0] != "0" else "1") + s[it[-1]]["sha"][1:]
+        cans.append(("a packet value looks different after Send", s, it[-1] + 1))
+        cp = os.path.join(ck.work, "canary_trace2.ndjson")
+        vlib.write_ndjson(cp, [e for _, s, _ in cans for e in s] + [{"k": "End"}])
+        st, trn, ok, evn = ck.states, ck.transitions, ck.traces_ok, ck.evaluations
+        _, rej = ck.validate_segments("Adnl_Trace", "trace/Adnl_Trace.cfg", cp, name="canary2", heap_gb=6)
+        ck.states, ck.transitions, ck.traces_ok, ck.evaluations = st, trn, ok, evn
+        base = 1
+        for nm, s, first_possible in cans:
+            mine = [r for r in rej if r["seg"] == base]
+            ck.canary("C->S: " + nm, len(mine) == 1 and mine[0]["accepted"] >= first_possible - 1 and mine[0]["accepted"] < len(s))
+            base += len(s)
+    guarded(ck, cs_canaries2)
     return ck.finish(rule=RULE, distinct=2 * len(vecs) + nseg)
 
 
